@@ -408,6 +408,212 @@ impl<'a> Repair<'a> {
         Some(-y0 * inv?)
     }
 
+    /// `Some(t)`: a lookup constrains this cell to `[0, 2^t)` on its row (range table); `None`: no
+    /// lookup constrains it.
+    fn max_bits(&mut self, cell: Cell) -> Option<u32> {
+        let lk = self.lookup_by_col.get(&cell.0)?.clone();
+        let old = self.t.advice[cell.0][cell.1];
+        let mut best: Option<u32> = None;
+        for (li, rot) in lk {
+            let row = self.rot(cell.1, -rot);
+            if row >= self.t.usable_rows {
+                continue;
+            }
+            let con = Con::Lookup(li, row);
+            let mut accepts = |s: &mut Self, v: F| {
+                s.t.advice[cell.0][cell.1] = v;
+                let r = !s.con_violated(&con);
+                s.t.advice[cell.0][cell.1] = old;
+                r
+            };
+            if accepts(self, F::from((1u64 << 40) - 1)) {
+                continue; // lookup not active on this row
+            }
+            let mut tt = 0u32;
+            for t in (0..=24u32).rev() {
+                if accepts(self, F::from((1u64 << t) - 1)) {
+                    tt = t;
+                    break;
+                }
+            }
+            best = Some(best.map_or(tt, |b| b.min(tt)));
+        }
+        best
+    }
+
+    fn slope_const(&mut self, expr: &Expression<F>, row: usize, cell: Cell) -> Option<F> {
+        let y0 = self.eval_with(expr, row, cell, F::ZERO);
+        let y1 = self.eval_with(expr, row, cell, F::ONE);
+        let y2 = self.eval_with(expr, row, cell, F::ONE + F::ONE);
+        if y2 - y1 != y1 - y0 {
+            return None;
+        }
+        Some(y1 - y0)
+    }
+
+    /// Range-aware move for a linear constraint `-v + sum_j c_j a_j + r = 0` whose free cells are
+    /// range-checked chunks `a_j` (weights `c_j`) and at most one unconstrained remainder `r`: the
+    /// chunks take the base-2 digits of `v`, the remainder takes what is left. This is how a
+    /// changed value gets a fresh range-check decomposition without a donor.
+    fn decompose_move(&mut self, con: &Con, free: &[Cell]) -> Option<Vec<(Cell, F)>> {
+        let Con::Poly(pi, row) = con else { return None };
+        let expr = self.polys[*pi].expr.clone();
+        let big = |f: &F| num_bigint::BigUint::from_bytes_le(f.to_repr().as_ref());
+        let fe = |v: &num_bigint::BigUint| {
+            let mut b = v.to_bytes_le();
+            b.resize(32, 0);
+            let mut repr = <F as PrimeField>::Repr::default();
+            repr.as_mut().copy_from_slice(&b);
+            Option::<F>::from(F::from_repr(repr))
+        };
+        let mut ranged: Vec<(Cell, F, u32)> = vec![];
+        let mut others: Vec<(Cell, F)> = vec![];
+        for c in free {
+            let s = self.slope_const(&expr, *row, *c)?;
+            if s == F::ZERO {
+                continue;
+            }
+            match self.max_bits(*c) {
+                Some(t) => ranged.push((*c, s, t)),
+                None => others.push((*c, s)),
+            }
+        }
+        if ranged.is_empty() || others.len() > 1 {
+            return None;
+        }
+        // constant term with every free cell at zero
+        let olds: Vec<(Cell, F)> = free.iter().map(|c| (*c, self.t.advice[c.0][c.1])).collect();
+        for c in free {
+            self.t.advice[c.0][c.1] = F::ZERO;
+        }
+        let k = self.t.eval(&expr, *row);
+        for (c, o) in &olds {
+            self.t.advice[c.0][c.1] = *o;
+        }
+        let half = big(&-F::ONE) >> 1;
+        let neg = match others.first() {
+            Some((_, s)) if *s == F::ONE => false,
+            Some((_, s)) if *s == -F::ONE => true,
+            Some(_) => return None,
+            None => big(&ranged[0].1) > half,
+        };
+        let sgn = |x: F| if neg { -x } else { x };
+        let mut rem = big(&sgn(-k));
+        let mut rs: Vec<(Cell, num_bigint::BigUint, u32)> = vec![];
+        for (c, s, t) in &ranged {
+            let w = big(&sgn(*s));
+            if w > half || w == num_bigint::BigUint::from(0u8) {
+                return None;
+            }
+            rs.push((*c, w, *t));
+        }
+        rs.sort_by(|a, b| a.1.cmp(&b.1));
+        let mut mv: Vec<(Cell, F)> = vec![];
+        for (c, w, t) in rs {
+            let digit = (&rem / &w) & ((num_bigint::BigUint::from(1u8) << t) - num_bigint::BigUint::from(1u8));
+            rem -= &w * &digit;
+            mv.push((c, fe(&digit)?));
+        }
+        match others.first() {
+            Some((c, _)) => mv.push((*c, fe(&rem)?)),
+            None => {
+                if rem != num_bigint::BigUint::from(0u8) {
+                    return None;
+                }
+            }
+        }
+        mv.retain(|(c, v)| self.t.advice[c.0][c.1] != *v);
+        if mv.is_empty() {
+            None
+        } else {
+            Some(mv)
+        }
+    }
+
+    /// Finds the row of the multiplication / normalisation identity that reads one cell of every
+    /// given output-limb class, its auxiliary cells (not pinned, not output limbs) and the partial
+    /// derivatives of its polynomials with respect to the limbs and the auxiliary cells.
+    pub fn identity_row(&mut self, z_classes: &[Vec<Cell>]) -> Option<IdentityRow> {
+        let first = z_classes.first()?;
+        let mut by_row: BTreeMap<usize, Vec<usize>> = BTreeMap::new();
+        for m in first {
+            let Some(v) = self.poly_by_col.get(&m.0).cloned() else { continue };
+            for (pi, rot) in v {
+                let row = self.rot(m.1, -rot);
+                if let Some(sel) = self.polys[pi].gate_sel {
+                    if !self.t.selectors[sel][row] {
+                        continue;
+                    }
+                }
+                let cells = self.cells_of(&Con::Poly(pi, row));
+                if z_classes.iter().all(|cl| cl.iter().any(|c| cells.contains(c))) {
+                    let e = by_row.entry(row).or_default();
+                    if !e.contains(&pi) {
+                        e.push(pi);
+                    }
+                }
+            }
+        }
+        // the last such row: the identity whose result feeds the exposure; then every polynomial
+        // of that row that reads one of the limbs (the per-modulus identities read fewer limbs)
+        let (row, _) = by_row.into_iter().next_back()?;
+        let z_set: BTreeSet<Cell> = z_classes.iter().flatten().copied().collect();
+        let mut polys: Vec<usize> = vec![];
+        for pi in 0..self.polys.len() {
+            if let Some(sel) = self.polys[pi].gate_sel {
+                if !self.t.selectors[sel][row] {
+                    continue;
+                }
+            } else {
+                continue;
+            }
+            if self.cells_of(&Con::Poly(pi, row)).iter().any(|c| z_set.contains(c)) {
+                polys.push(pi);
+            }
+        }
+        let mut z_cells: Vec<Cell> = vec![];
+        let all_cells: BTreeSet<Cell> = polys.iter().flat_map(|pi| self.cells_of(&Con::Poly(*pi, row))).collect();
+        for cl in z_classes {
+            z_cells.push(*cl.iter().find(|c| all_cells.contains(c))?);
+        }
+        let z_all: BTreeSet<Cell> = z_classes.iter().flatten().copied().collect();
+        let aux: Vec<Cell> = all_cells
+            .iter()
+            .filter(|c| !z_all.contains(c))
+            .filter(|c| match self.class_of.get(c) {
+                Some(id) => self.pinned[*id].is_none(),
+                None => true,
+            })
+            .copied()
+            .collect();
+        if aux.len() != polys.len() {
+            return None;
+        }
+        let mut dz = vec![];
+        let mut da = vec![];
+        for pi in &polys {
+            let expr = self.polys[*pi].expr.clone();
+            let mut rz = vec![];
+            for c in &z_cells {
+                rz.push(self.slope_const(&expr, row, *c)?);
+            }
+            let mut ra = vec![];
+            for c in &aux {
+                ra.push(self.slope_const(&expr, row, *c)?);
+            }
+            dz.push(rz);
+            da.push(ra);
+        }
+        let aux_values = aux.iter().map(|c| self.t.advice[c.0][c.1]).collect();
+        Some(IdentityRow {
+            row,
+            aux,
+            dz,
+            da,
+            aux_values,
+        })
+    }
+
     /// Would the constraint hold after setting these cells (only the cells, not their classes)?
     fn satisfied_after(&mut self, con: &Con, mv: &[(Cell, F)]) -> bool {
         let olds: Vec<F> = mv.iter().map(|(c, _)| self.t.advice[c.0][c.1]).collect();
@@ -494,6 +700,14 @@ impl<'a> Repair<'a> {
         let committed = !sat_donor.is_empty();
         for mv in sat_donor {
             out.push((true, mv));
+        }
+        // range-aware re-decomposition (deterministic, hence committing)
+        if !committed {
+            if let Some(mv) = self.decompose_move(con, &free) {
+                if self.satisfied_after(con, &mv) {
+                    out.push((true, mv));
+                }
+            }
         }
         // affine moves
         if let Con::Poly(pi, row) = con {
@@ -584,6 +798,17 @@ impl<'a> Repair<'a> {
         }
         false
     }
+}
+
+/// See `Repair::identity_row`.
+#[derive(Clone, Debug)]
+pub struct IdentityRow {
+    pub row: usize,
+    pub aux: Vec<Cell>,
+    /// dz[p][i] = d poly_p / d limb_i ; da[p][j] = d poly_p / d aux_j
+    pub dz: Vec<Vec<F>>,
+    pub da: Vec<Vec<F>>,
+    pub aux_values: Vec<F>,
 }
 
 pub struct RepairResult {
